@@ -55,16 +55,15 @@ func VH_C20_Marshal(shape int) {
 	}
 	mkCol := func() *ColumnData {
 		c := newColumnData(string(vhASCII(2)), ColumnType([]int{3, 15, 246, 200}[vhChoose(4)]), false)
-		switch vhChoose(4) {
+		switch vhChoose(3) {
 		case 0:
 			c.Data = nil // SQL NULL
 		case 1:
 			c.Data = []byte{} // empty string
 		case 2:
 			c.Data = vhASCII(2)
-		case 3:
-			c.IsEmpty = true // absent from a partial image
 		}
+		c.IsEmpty = vhChoose(2) == 1 // the absent flag is serialised independently of the data
 		return c
 	}
 	mkRows := func() *StreamEvent {
